@@ -2,7 +2,7 @@
    universally quantified; the guards name exactly the finding classes proved in Refuted.v. *)
 From Coq Require Import List Arith ZArith Bool Lia.
 Import ListNotations.
-Require Import FV.Gen.C18 FV.C18.Model FV.C18.LemmasSt FV.C18.LemmasFe FV.C18.LemmasLi FV.C18.LemmasCo FV.C18.Refuted.
+Require Import FV.Gen.C18 FV.C18.Model FV.C18.LemmasSt FV.C18.LemmasFe FV.C18.LemmasLi FV.C18.LemmasCo FV.C18.LemmasMo FV.C18.LemmasCs FV.C18.Refuted.
 
 (* obligations on the facts regenerated from /repo (Gen/C18.v) *)
 Theorem C18_source_facts :
@@ -14,7 +14,8 @@ Theorem C18_source_facts :
   limit_check_installed_per_class_dict = true /\ limit_postfixes = true /\
   limit_datatype_from_base = true /\ limitstype_refuses_inverted = true /\
   activate_control_shape = true /\ self_controlled_shape = true /\ update_target_lookup_by_member = true /\
-  callbacks_before_update_sent = true.
+  callbacks_before_update_sent = true /\
+  input_callbacks_per_instance = true /\ read_wrapper_announces_inside_access_lock = true.
 Proof. repeat split; reflexivity. Qed.
 
 (* STRUCT.  Full statement: for every layout, every fault script and every history, struct and members agree member by
@@ -279,7 +280,82 @@ Example C18_demo_struct_member_write_coerced :
      [(1, [5%Z]); (0, [5%Z]); (1, [5%Z]); (0, [5%Z]); (1, [5%Z]); (1, [5%Z])]).
 Proof. vm_compute. reflexivity. Qed.
 
+(* SEVERAL OUTPUT MODULES on one node, each with its own controllers (any number of outputs, any controller kinds, any
+   history of addressed operations - take-overs, manual writes, update_target calls, fault changes - interleaved at will):
+   (1) frame: one operation addressed to output k leaves the complete control state of every other output k' untouched
+       (controlled_by, the control_active flags and targets of ITS controllers, its update stream);
+   (2) after every history the state of output k is the state of the single-output model run on the operations addressed
+       to k alone, so two histories that agree on k agree on its state whatever happens on the other outputs;
+   (3) hence per output: at most one controller marked, the output names exactly that one, self iff nobody (for the
+       histories admitted for that output by LemmasCo.run_ok, the guard being the open finding of failing switch-off).
+   This rests on the source fact input_callbacks_per_instance (the callback dict is created per output instance). *)
+Theorem C18_control_outputs_independent : forall Ls,
+  (forall s k o k', k' <> k ->
+     nth k' (Mo.outs (fst (Mo.step Ls s (k, o)))) Mo.co0 = nth k' (Mo.outs s) Mo.co0) /\
+  (forall ops k, k < length Ls ->
+     nth k (Mo.outs (Mo.run Ls ops)) Mo.co0 = Co.run (nth k Ls []) (Mo.ops_for k ops)) /\
+  (forall ops ops' k, k < length Ls -> Mo.ops_for k ops = Mo.ops_for k ops' ->
+     nth k (Mo.outs (Mo.run Ls ops)) Mo.co0 = nth k (Mo.outs (Mo.run Ls ops')) Mo.co0) /\
+  (forall ops k, k < length Ls ->
+     LemmasCo.run_ok (nth k Ls []) (Co.init (nth k Ls [])) (Mo.ops_for k ops) ->
+     let s := nth k (Mo.outs (Mo.run Ls ops)) Mo.co0 in
+     (forall j j', nth j (Co.act s) false = true -> nth j' (Co.act s) false = true -> j = j') /\
+     (forall j, nth j (Co.act s) false = true <-> Co.by_ s = S j) /\
+     (Co.by_ s = 0 <-> forall j, nth j (Co.act s) false = false)).
+Proof.
+  intros Ls. split; [intros; now apply LemmasMo.step_frame|]. split; [intros; now apply LemmasMo.run_proj|].
+  split; [intros; now apply LemmasMo.run_independent|].
+  intros ops k Hk Hr. cbv zeta. rewrite LemmasMo.run_proj by exact Hk.
+  destruct (LemmasCo.single_controller _ _ Hr) as (H1 & H2 & H3 & _). auto.
+Qed.
+
+(* TWO THREADS on a module with a struct parameter.  Every wrapped read_ / write_ method is
+   [acquire accessLock; body; release]; read_<struct> of the layout without combined methods is split in its two halves
+   (collect the members / announce the collected dict) with a possible thread switch in between and at every lock
+   operation.  For EVERY pair of programs and EVERY schedule:
+   (1) mutual exclusion: at most one thread is inside a body, and exactly the lock holder is;
+   (2) while the lock is free (in particular at quiescence) the module state is the state of the SERIAL execution of the
+       completed operations in the order in which the lock was released - so between the collection and the announcement
+       of read_<struct> no write of the other thread took place;
+   (3) therefore struct and members agree member by member whenever the lock is free, under the guard of the
+       sequential theorem applied to that serial history.
+   Rests on the source fact read_wrapper_announces_inside_access_lock. *)
+Theorem C18_struct_read_atomic : forall L pa pb sched,
+  let c := Cs.run L pa pb sched in
+  (forall t u, Cs.phase (Cs.get c t) <> 0 -> Cs.phase (Cs.get c u) <> 0 -> t = u) /\
+  (Cs.holder c = None <-> forall t, Cs.phase (Cs.get c t) = 0) /\
+  (Cs.quiescent c = true -> Cs.holder c = None) /\
+  (Cs.holder c = None -> Cs.sst c = St.run L (rev (Cs.lin c))) /\
+  (Cs.holder c = None -> LemmasSt.run_ok L (St.init L) (rev (Cs.lin c)) ->
+     length (St.cst (Cs.sst c)) = St.sl_n L /\ length (St.cmem (Cs.sst c)) = St.sl_n L /\
+     forall i, i < St.sl_n L -> nth i (St.cst (Cs.sst c)) 0%Z = nth i (St.cmem (Cs.sst c)) 0%Z).
+Proof.
+  intros L pa pb sched c. pose proof (LemmasCs.run_inv L pa pb sched) as HI. fold c in HI.
+  destruct (LemmasCs.mutual_exclusion L c HI) as (H1 & H2).
+  split; [exact H1|]. split; [exact H2|]. split; [exact (LemmasCs.quiescent_free L c HI)|].
+  split; [exact (LemmasCs.serial_when_free L c HI)|].
+  intros Hn Hr. rewrite (LemmasCs.serial_when_free L c HI Hn). exact (LemmasSt.struct_agree L _ Hr).
+Qed.
+
+(* non-vacuity: read_st of thread A and write_a 9 of thread B, layout without combined methods, hardware member a;
+   B chosen between the two halves of the read stays blocked: the result is the serial run [ReadS; WriteM 0 9] *)
+Example C18_demo_struct_read_atomic :
+  let L := {| St.sl_n := 2; St.sl_rw := false; St.sl_sr := false; St.sl_sw := false; St.sl_mr := [true; true];
+              St.sl_mw := [true; true]; St.sl_lo := (-100)%Z; St.sl_hi := 100%Z |} in
+  let c := Cs.run L [St.ReadS] [St.WriteM 0 9%Z] [false; false; true; true; false; true; true; true] in
+  Cs.quiescent c = true /\ rev (Cs.lin c) = [St.ReadS; St.WriteM 0 9%Z] /\
+  St.cst (Cs.sst c) = [9%Z; 0%Z] /\ St.cmem (Cs.sst c) = [9%Z; 0%Z].
+Proof. vm_compute. repeat split; reflexivity. Qed.
+
+(* non-vacuity: two outputs; b (output 1) takes control, then a take-over and a manual write on output 0 *)
+Example C18_demo_outputs_independent :
+  let s := Mo.run [[0; 0]; [0]] [(1, Co.WriteT 0 1%Z); (0, Co.WriteT 0 2%Z); (0, Co.WriteT 1 3%Z); (0, Co.WriteO 4%Z)] in
+  map Co.by_ (Mo.outs s) = [0; 1] /\ map Co.act (Mo.outs s) = [[false; false]; [true]].
+Proof. vm_compute. split; reflexivity. Qed.
+
 Print Assumptions C18_source_facts.
+Print Assumptions C18_control_outputs_independent.
+Print Assumptions C18_struct_read_atomic.
 Print Assumptions C18_struct_agree_except_unpropagated_assign_and_partial_abort.
 Print Assumptions C18_no_fault_no_partial_abort.
 Print Assumptions C18_struct_member_write_consistent.
